@@ -298,6 +298,16 @@ class Report:
 def prove(rep, pid, theorems, extra_targets=()):
     """translator + lake build of the property module + audit.  Fills rep.proof; on failure
     registers an `unproved` (the caller's searches may still find a failing input)."""
+    # one check at a time writes lean/.lake and the generated tables; the searches that follow run
+    # without the lock (an up-to-date build is not touched by a second `lake build`)
+    import fcntl
+    os.makedirs(os.path.join(VERIF, '.locks'), exist_ok=True)
+    with open(os.path.join(VERIF, '.locks', 'build.lock'), 'w') as lock:
+        fcntl.flock(lock, fcntl.LOCK_EX)
+        return _prove(rep, pid, theorems, extra_targets)
+
+
+def _prove(rep, pid, theorems, extra_targets=()):
     tab = gen_tables()
     if tab.get('missing'):
         rep.proof['problems'].append('translator could not extract: %s' % tab['missing'])
